@@ -319,6 +319,37 @@ S("perform_update_not_equal_form", [(DB, "            return point != old_point\
 S("reopen_mode_via_local", [(ST, "            self._handle = open(self._path, mode='r+' if self._mode in ('w', 'w+') else self._mode, encoding=self._encoding, newline=self._newline)",
                              "            reopen_mode = 'r+' if self._mode in ('w', 'w+') else self._mode\n            self._handle = open(self._path, mode=reopen_mode, encoding=self._encoding, newline=self._newline)", 0)])
 
+S("private_helpers_renamed", [(m, a, b, -1) for a, b in (("_remove_helper", "_remove_points"), ("_update_helper", "_rewrite_points"),
+                                                          ("_reset_database", "_wipe"), ("_generate_updater", "_make_updater"),
+                                                          ("_insert_helper", "_put_points"), ("_search_timestamps", "_find_times"),
+                                                          ("_search_fields", "_find_fields")) for m in (DB, IDX)
+                              if not (m == IDX and a in ("_remove_helper", "_update_helper", "_reset_database", "_generate_updater", "_insert_helper"))
+                              and not (m == DB and a.startswith("_search"))])
+S("private_attributes_renamed", [(m, a, b, -1) for a, b in (("_temp_handle", "_staging"), ("_handle", "_fh"),
+                                                             ("_temp_memory", "_staged"), ("_memory", "_rows"))
+                                 for m in (ST,)])
+S("index_position_array_renamed", [(IDX, "_storage_pos_sorted_by_ts", "_positions_by_time", -1)])
+
+# ---- round 3: selection guards, unowned staging file, two-site temporary-list leak
+F("update_all_through_index", [(DB, "use_index = not update_all and self._index.valid", "use_index = self._index.valid", 0)],
+  ["C03", "C01", "C10"])
+F("drop_measurement_noop_query", [(DB, "self._remove_helper(MeasurementQuery() == name, name)",
+                                  "self._remove_helper(MeasurementQuery().noop(), name)", 0)], ["C02", "C10"])
+F("reset_skips_storage_when_index_empty", [(DB, "        self._storage.reset()\n        self._measurements.clear()\n",
+                                            "        if not self._index.empty:\n            self._storage.reset()\n        self._measurements.clear()\n", 0)],
+  ["C02", "C04", "C07", "C06"], ["C01"])
+F("swap_via_unowned_staging_file", [(ST, "            shutil.copy(self._temp_handle.name, self._path)\n",
+                                     "            staged = f'{self._path}.swap'\n            shutil.copy(self._temp_handle.name, staged)\n            os.replace(staged, self._path)\n", 0)],
+  ["C15"])
+S("swap_via_owned_staging_file", [(ST, "            shutil.copy(self._temp_handle.name, self._path)\n",
+                                   "            staged = f'{self._path}.swap'\n            try:\n                shutil.copy(self._temp_handle.name, staged)\n                os.replace(staged, self._path)\n            except BaseException:\n                if os.path.exists(staged):\n                    os.remove(staged)\n                raise\n", 0)])
+S("memory_temp_reset_by_release_only", [(ST, '        """Initialize temporary storage."""\n        self._temp_memory = []\n',
+                                         '        """Initialize temporary storage."""\n        pass\n', 0)])
+F("memory_temp_leak_two_sites", [(ST, '        """Initialize temporary storage."""\n        self._temp_memory = []\n',
+                                  '        """Initialize temporary storage."""\n        pass\n', 0),
+                                 (DB, "        try:\n            rst = method(self, *args, **kwargs)\n        finally:\n            self._storage._cleanup_temp_storage()\n        return rst\n",
+                                  "        rst = method(self, *args, **kwargs)\n        self._storage._cleanup_temp_storage()\n        return rst\n", 0)],
+  ["C15", "C11", "C13", "C02", "C03"])
 
 # ----------------------------------------------------------------- property dependencies
 # A breach of a discipline is reported under every property it is a necessary condition of
@@ -332,7 +363,6 @@ RELABEL = {
     "remove_swap_failure_keeps_index": (None, ["C06", "C02"] + IDXDEP),
     "update_invalidates_after_swap": (None, ["C06", "C03"] + IDXDEP),
     "temp_file_default_encoding": (None, ["C01", "C02", "C03", "C05", "C06", "C07", "C12"]),
-    "insert_default_time_naive": (None, ["C04"]),
     "time_setter_unvalidated": (None, ["C11"]),
     "remove_swaps_on_noop": (None, ["C12"]),
     "compound_call_repeats_q1": (None, ["C17"]),
@@ -347,8 +377,13 @@ RELABEL = {
     "insert_time_position_after_append": (None, ["C07"]),
     "insert_maps_use_loop_index": (None, ["C07"]),
     "build_fields_off_by_one": (None, ["C07"]),
-    "append_without_seek_end": (["C04", "C16", "C12"], []),
+    "append_without_seek_end": (["C04", "C16", "C12", "C07", "C11", "C01"], []),
     "update_rewrites_unconditionally": (None, ["C15"]),
+    "update_time_not_normalised": (None, ["C01"]),
+    "insert_default_time_naive": (None, ["C04", "C01"]),
+    "compact_tag_prefix_ambiguous": (None, ["C01"]),
+    "field_prefix_strip_wrong_len": (None, ["C01"]),
+    "fields_written_before_tags": (None, ["C01"]),
 }
 for _v in V:
     if _v.name in RELABEL:
